@@ -41,7 +41,7 @@ CANARIES = [
     ("step-no-copy-of-view", "c01_step", "operation_base.py", "                    backed_grad.base is not None\n                    or (backed_grad is grad)", "                    (backed_grad is grad)", r"inv_step\.C12\.OWNG\.owner"),
     ("step-no-dtype-cast", "c01_step", "operation_base.py", "                    or backed_grad.dtype != var.dtype\n", "", r"inv_step\.C14\.I1\.dtype"),
     ("step-no-layout", "c01_step", "operation_base.py", "                    or backed_grad.strides != var.data.strides\n", "", r"inv_step\.C06\.I1prime\.layout"),
-    ("step-where-dropped", "c01_step", "operation_base.py", "            if self.where is not True:\n                backed_grad = backed_grad * self.where\n", "", r"\[?.*inv_step\.C01\.acc"),
+    ("step-where-dropped", "c01_step", "operation_base.py", "            if self.where is not True:\n                # (the product of 0D arrays is a numpy scalar, not an array)\n                backed_grad = np.asarray(backed_grad * self.where)\n", "", r"\[?.*inv_step\.C01\.acc"),
     ("step-no-post-process", "c01_step", "operation_base.py", "            backed_grad = self.grad_post_process_fn(backed_grad, var.shape)\n", "", r"inv_step\.(C14\.I1\.shape|C01\.acc)|no_other_exception"),
     ("step-wrong-index", "c01_step", "operation_base.py", "backed_grad = self.backward_var(grad, index, **kwargs)", "backed_grad = self.backward_var(grad, 0, **kwargs)", r"backward_var_receives_index"),
     ("step-skip-swallows-all", "c01_step", "operation_base.py", "            except SkipGradient:\n                continue", "            except Exception:\n                continue", None),
@@ -101,7 +101,7 @@ CANARIES = [
     # ---- ApplyMask / UnView (c05_ops) -----------------------------------------------------------------------------------
     ("applymask-not-dropped", "c05_ops", "_utils/duplicating_graph.py", "            return grad * logical_not(self._mask)", "            return grad * self._mask", r"C05\."),
     ("unview-base-not-zeroed", "c05_ops", "_utils/duplicating_graph.py", "            grad_view *= 0\n", "", r"C05\."),
-    ("unview-base-no-copy", "c05_ops", "_utils/duplicating_graph.py", "        if index == 0:  # compute dℒ/d(base)\n            grad = grad.copy()\n", "        if index == 0:  # compute dℒ/d(base)\n", r"C05\.|C12\."),
+    ("unview-base-no-copy", "c05_ops", "_utils/duplicating_graph.py", "            grad = grad.copy(order=\"K\")\n            grad_view = grad\n", "            grad_view = grad\n", r"C05\.|C12\."),
     # ---- clear_graph / null_grad (c07_clear) ----------------------------------------------------------------------------
     ("clear-keeps-ops", "c07_clear", "tensor_base.py", "        self._view_children.clear()\n        self._ops.clear()\n", "        self._view_children.clear()\n", r"C07\."),
     ("clear-keeps-creator", "c07_clear", "tensor_base.py", "        self._creator = None  # marks tensor as \"visited\" during graph-traversal\n\n        for var in creator.variables:", "        for var in creator.variables:", r"clear_graph#loop0\.inv_init\.own_cleared|C07\.clear\.creator_dropped_before_recursion"),
